@@ -86,7 +86,7 @@ def w4_stream(rng, k, K):
 
 def as_user_number(rng, v):
     """whole-valued keyword arguments are sometimes passed as python ints (users write max_tau=2, MRTS=10) or as numpy
-    scalars of another type (np.int64 from an array, np.float32 from a file) - always with exactly the same numeric value"""
+    scalars of another type (np.int64 / np.float64 from an array, a 0-d array) - always with exactly the same numeric value"""
     if not isinstance(v, float):
         return v
     r = rng.random()
@@ -97,8 +97,9 @@ def as_user_number(rng, v):
             return np.int64(v)
         if r < 0.55:
             return np.int32(v)
-    if r > 0.9 and float(np.float32(v)) == v:
-        return np.float32(v)
+    # (np.float32 values are NOT generated: under numpy 2 a python float combined with a float32 scalar is computed in
+    # binary32, so an implementation that works with python floats legitimately returns float32-accurate results for a
+    # float32 argument - flagging that would demand more than any statement says; see DESIGN section A)
     if r > 0.85:
         return np.float64(v)
     if r > 0.8:
